@@ -13,7 +13,7 @@ from . import verus as V
 from .rustsrc import SliceError
 
 ROOT = os.path.dirname(os.path.dirname(os.path.abspath(__file__)))
-WORK = os.path.join(ROOT, '.work')
+WORK = os.environ.get('VERIF_WORK') or os.path.join(ROOT, '.work')  # VERIF_WORK: separate work dirs let several properties be checked at once
 
 
 def load_props():
